@@ -198,12 +198,19 @@ type call struct {
 }
 
 func guarded(f func() error) (c call) {
+	// `returned` and not `recover() != nil` decides: the module says go 1.19, so panic(nil) keeps its old
+	// meaning and recover() answers nil for it, while a real server still dies of it
+	returned := false
 	defer func() {
-		if r := recover(); r != nil {
+		if r := recover(); r != nil || !returned {
 			c.panicked, c.pval = true, r
+			if r == nil {
+				c.pval = "panic(nil)"
+			}
 		}
 	}()
 	c.err = f()
+	returned = true
 	return
 }
 
